@@ -25,6 +25,7 @@ CUSTOM_NODE = "score"
 CUSTOM_EDGE = "ew"
 CUSTOM_REQ = "quality"  # a registered custom feature with required=True
 NEW_KEY = "note"
+CUSTOM_DEFAULT = "ctype"  # registered str feature with a default value, set on some nodes only
 OPTIONAL = ["ellipse_axis_radii", "circularity", "perimeter", "iou"]
 
 
@@ -32,7 +33,7 @@ OPTIONAL = ["ellipse_axis_radii", "circularity", "perimeter", "iou"]
 # initial state
 # ----------------------------------------------------------------------------------------
 def gen_config(rnd, *, seg=None, ndim=None, allow_optional=True, per_axis=True, allow_seg_axes=False,
-               max_frames=6, big_frames=False, allow_stray=False) -> dict:
+               max_frames=6, big_frames=False, allow_stray=False, allow_default_feature=False) -> dict:
     ndim = ndim if ndim is not None else (4 if rnd.random() < 0.25 else 3)
     seg = seg if seg is not None else rnd.random() < 0.6
     r = rnd.random()
@@ -58,6 +59,8 @@ def gen_config(rnd, *, seg=None, ndim=None, allow_optional=True, per_axis=True, 
         "frames": rnd.randint(3, max_frames),
         "optional": [],
     }
+    if cfg["route"] == "from_tracks_partial_ids":
+        cfg["partial_kind"] = rnd.choice(["both", "both", "lineage_only", "no_lineage_at_all"])
     if seg:
         cfg["shape"] = [4, 6, 6] if ndim == 4 else rnd.choice([[8, 8], [9, 7], [10, 10]])
         if big_frames and rnd.random() < 0.5:
@@ -89,6 +92,8 @@ def gen_config(rnd, *, seg=None, ndim=None, allow_optional=True, per_axis=True, 
         cfg["shape"] = [8, 8, 8][: ndim - 1]
         if per_axis and rnd.random() < 0.3:
             cfg["pos_mode"] = "axes"
+    if allow_default_feature and rnd.random() < 0.3:
+        cfg["default_feature"] = True  # see CUSTOM_DEFAULT
     if rnd.random() < 0.25:
         # ids, times and labels reach the library as numpy integers (what a label layer or a
         # table hands over) instead of Python ints; edges / node pairs as lists instead of tuples
@@ -227,6 +232,8 @@ def gen_init(rnd, cfg=None, *, max_nodes=10, need_edges=False) -> dict:
             parent = pool[0] if rnd.random() < 0.6 else rnd.choice(pool)
         node: dict[str, Any] = {"id": nid, "t": t, "parent": None if parent is None else parent["id"],
                                 CUSTOM_NODE: 0.0 if rnd.random() < 0.2 else round(rnd.random() * 10, 3)}
+        if cfg.get("default_feature") and rnd.random() < 0.5:
+            node[CUSTOM_DEFAULT] = rnd.choice(["a", "b", ""])
         if parent is not None:
             # falsy values on purpose (0): "if value:" instead of "is not None" must show
             node[CUSTOM_EDGE] = rnd.choice([0, 0, 1, 2, 3, 5, 9])
@@ -364,6 +371,8 @@ class World:
             perm.shuffle(order)
         for nd in order:
             attrs = {self.time_key: nd["t"], CUSTOM_NODE: nd[CUSTOM_NODE], CUSTOM_REQ: int(nd["id"]) % 5}
+            if nd.get(CUSTOM_DEFAULT) is not None:
+                attrs[CUSTOM_DEFAULT] = nd[CUSTOM_DEFAULT]
             if cfg["seg"]:
                 m = box_mask(self.shape, nd["boxes"])
                 seg[nd["t"]][m] = nd["id"]
@@ -434,8 +443,13 @@ class World:
             if cfg["route"] == "from_tracks_partial_ids" and g.number_of_nodes():
                 # one node lost its ids: from_tracks must recompute all of them (over the old ones)
                 victim = sorted(g.nodes)[len(g) // 2]
-                g.nodes[victim].pop(tkey, None)
+                kind = cfg.get("partial_kind", "both")
+                if kind != "lineage_only":
+                    g.nodes[victim].pop(tkey, None)
                 g.nodes[victim].pop(lkey, None)
+                if kind == "no_lineage_at_all":  # e.g. a file with track ids only
+                    for n in g.nodes:
+                        g.nodes[n].pop(lkey, None)
             if cfg["route"] in ("from_tracks", "from_tracks_ids", "from_tracks_partial_ids"):
                 # a plain Tracks object promoted to a solution (ids are computed by from_tracks)
                 from funtracks.data_model import Tracks
@@ -457,6 +471,10 @@ class World:
             tracks.features[CUSTOM_EDGE] = ff.Feature(
                 feature_type="edge", value_type="int", num_values=1, display_name="EdgeWeight",
                 required=False, default_value=None)
+            if cfg.get("default_feature"):
+                tracks.features[CUSTOM_DEFAULT] = ff.Feature(
+                    feature_type="node", value_type="str", num_values=1, display_name="Cell type",
+                    required=False, default_value="unknown")
             if cfg.get("optional"):
                 tracks.enable_features(list(cfg["optional"]))
         self.tracks = tracks
@@ -846,6 +864,8 @@ def gen_op(world: World, rnd, weights: dict, refusal_bias: float = 0.08) -> dict
         r = rnd.random()
         if r < 0.55:
             attrs = {CUSTOM_NODE: 0.0 if rnd.random() < 0.2 else round(rnd.random() * 100, 3)}
+            if world.cfg.get("default_feature") and rnd.random() < 0.4:
+                attrs = {CUSTOM_DEFAULT: rnd.choice(["a", "c", "", "unknown"])}
         elif r < 0.63:
             attrs = {NEW_KEY: rnd.randint(0, 9)}
         elif r < 0.7:
